@@ -119,20 +119,20 @@ let op_rl_conn a =
       let ep () = match rl_get_ep !rl_g.b.rl_eps zid with Some e -> e | None -> failwith "no such endpoint" in
       let st = ref g.b in
       let m = if mirror then begin
-          let r1 = rl_replay rl_topo0 znow (match rl_get_ep !st.rl_eps zid with Some e -> e | None -> ep ()) !st in
+          let r1 = rl_replay_src rl_topo0 znow (match rl_get_ep !st.rl_eps zid with Some e -> e | None -> ep ()) !st in
           st := rl_feed_acks zid r1.rl_rr_out r1.rl_rr_st;
           " mirror=" ^ rl_items r1.rl_rr_out end else "" in
-      let r = rl_replay rl_topo0 znow (match rl_get_ep !st.rl_eps zid with Some e -> e | None -> ep ()) !st in
+      let r = rl_replay_src rl_topo0 znow (match rl_get_ep !st.rl_eps zid with Some e -> e | None -> ep ()) !st in
       lb := Printf.sprintf "rl_conn e=%d%s out=%s%s" id m (rl_items r.rl_rr_out) (if r.rl_rr_done then "" else " NOTDONE");
       { g with b = r.rl_rr_st } end else g in
   let g = if g.xok then begin
       let get st = match rl_get_ep st.rl_x_eps zid with Some e -> e | None -> failwith "no such endpoint" in
       let st = ref g.x in
       let m = if mirror then begin
-          let r1 = rl_x_replay rl_topo0 znow (get !st) !st in
+          let r1 = rl_x_replay_src rl_topo0 znow (get !st) !st in
           st := rl_x_feed_acks zid r1.rl_xrr_out r1.rl_xrr_st;
           " mirror=" ^ rl_xitems r1.rl_xrr_out end else "" in
-      let r = rl_x_replay rl_topo0 znow (get !st) !st in
+      let r = rl_x_replay_src rl_topo0 znow (get !st) !st in
       lx := Printf.sprintf "rl_conn e=%d%s out=%s%s" id m (rl_xitems r.rl_xrr_out) (if r.rl_xrr_done then "" else " NOTDONE");
       { g with x = r.rl_xrr_st } end else g in
   rl_g := g;
